@@ -6,6 +6,7 @@ package main
 
 import (
 	"fmt"
+	"go/token"
 	"go/types"
 	"reflect"
 	"strings"
@@ -55,6 +56,8 @@ func (e *Engine) runStatic(spec string) {
 		e.staticFreshResult(arg)
 	case "writes-own-result":
 		e.staticWritesOwn(arg)
+	case "deterministic":
+		e.staticDeterministic(arg)
 	default:
 		e.failObligation("static/"+spec, "static", "", "static analysis exists", "unknown static analysis "+kind)
 	}
@@ -497,4 +500,315 @@ func (e *Engine) staticWritesOwn(fnKey string) {
 		}
 	}
 	e.staticResult(base+"/scanned", "function scanned for heap stores", true, "")
+}
+
+// ---- static/deterministic: the result is a function of the arguments ----
+//
+// Syntactic sufficient condition over the SSA of the function, its closures and (transitively)
+// the module functions it calls: no goroutines, channels or select; no range over a map; no
+// read or write of package-level state other than scalars written only by their initialiser;
+// no interface method calls; library calls only into packages whose functions are pure
+// functions of their arguments (bytes, strings, strconv, unicode, utf8, math, sort, errors).
+// Function values may only be called when the function takes no function-typed parameter, so
+// every callee is a closure created by the function itself and is scanned with it.
+var deterministicPkgs = map[string]bool{"bytes": true, "strings": true, "strconv": true, "unicode": true, "unicode/utf8": true,
+	"math": true, "sort": true, "errors": true, "regexp": true, "regexp/syntax": true, "log": true, "encoding/hex": true, "lukechampine.com/blake3": true}
+
+func (e *Engine) staticDeterministic(fnKey string) {
+	full := fnKey
+	if strings.HasPrefix(fnKey, "poly.") {
+		full = modPath + "." + strings.TrimPrefix(fnKey, "poly.")
+	} else if !strings.HasPrefix(full, modPath) {
+		full = modPath + "/" + fnKey
+	}
+	fn := e.lookupFunc(full)
+	base := "static/deterministic/" + fnKey
+	if fn == nil {
+		e.staticResult(base, "function exists", false, "function "+fnKey+" not found (contract drift)")
+		return
+	}
+	e.funcsUnderContract[shortKey(full)] = true
+	seen := map[*ssa.Function]bool{}
+	var why []string
+	var scan func(f *ssa.Function)
+	bad := func(f *ssa.Function, ins ssa.Instruction, msg string) {
+		if len(why) < 6 {
+			why = append(why, fmt.Sprintf("%s: %s (%s)", f.Name(), msg, e.prog.Fset.Position(ins.Pos())))
+		}
+	}
+	scan = func(f *ssa.Function) {
+		if seen[f] {
+			return
+		}
+		seen[f] = true
+		if f.Blocks == nil {
+			why = append(why, f.String()+": no body")
+			return
+		}
+		ps := f.Signature.Params()
+		hasFuncParam := false
+		for i := 0; i < ps.Len(); i++ {
+			if typeHasFunc(ps.At(i).Type(), map[types.Type]bool{}) {
+				hasFuncParam = true
+			}
+		}
+		for _, b := range f.Blocks {
+			for _, ins := range b.Instrs {
+				for _, op := range ins.Operands(nil) {
+					if g, ok := (*op).(*ssa.Global); ok {
+						if !e.globalScalarInitOnly(g) {
+							bad(f, ins, "uses package-level variable "+g.Name())
+						}
+					}
+				}
+				switch x := ins.(type) {
+				case *ssa.Go:
+					bad(f, ins, "starts a goroutine")
+				case *ssa.Select:
+					bad(f, ins, "select")
+				case *ssa.Send:
+					bad(f, ins, "channel send")
+				case *ssa.MakeChan:
+					bad(f, ins, "makes a channel")
+				case *ssa.UnOp:
+					if x.Op == token.ARROW {
+						bad(f, ins, "channel receive")
+					}
+				case *ssa.Range:
+					if _, isMap := x.X.Type().Underlying().(*types.Map); isMap {
+						bad(f, ins, "ranges over a map")
+					}
+				case *ssa.MakeClosure:
+					if af, ok := x.Fn.(*ssa.Function); ok {
+						scan(af)
+					}
+				case ssa.CallInstruction:
+					c := x.Common()
+					if c.IsInvoke() {
+						bad(f, ins, "interface method call "+c.Method.Name())
+						continue
+					}
+					if _, isB := c.Value.(*ssa.Builtin); isB {
+						continue
+					}
+					callee := c.StaticCallee()
+					if callee == nil {
+						if hasFuncParam {
+							bad(f, ins, "calls a function value and takes function-typed parameters")
+						}
+						continue
+					}
+					if callee.Pkg != nil && strings.HasPrefix(callee.Pkg.Pkg.Path(), modPath) || callee.Parent() != nil {
+						scan(callee)
+						continue
+					}
+					pp := ""
+					if callee.Pkg != nil {
+						pp = callee.Pkg.Pkg.Path()
+					} else if callee.Signature.Recv() != nil {
+						// method of an instantiated/library type
+						if n, ok := deref(callee.Signature.Recv().Type()).(*types.Named); ok && n.Obj().Pkg() != nil {
+							pp = n.Obj().Pkg().Path()
+						}
+					}
+					if !deterministicPkgs[pp] {
+						bad(f, ins, "calls "+callee.String())
+					}
+				}
+			}
+		}
+	}
+	scan(fn)
+	e.staticResult(base, "the result depends on the arguments only (no package state, map order, channels, goroutines, clocks or random sources)", len(why) == 0, strings.Join(why, "; "))
+}
+
+func typeHasFunc(t types.Type, seen map[types.Type]bool) bool {
+	if seen[t] {
+		return false
+	}
+	seen[t] = true
+	switch u := t.Underlying().(type) {
+	case *types.Signature:
+		return true
+	case *types.Slice:
+		return typeHasFunc(u.Elem(), seen)
+	case *types.Array:
+		return typeHasFunc(u.Elem(), seen)
+	case *types.Pointer:
+		return typeHasFunc(u.Elem(), seen)
+	case *types.Map:
+		return typeHasFunc(u.Key(), seen) || typeHasFunc(u.Elem(), seen)
+	case *types.Struct:
+		for i := 0; i < u.NumFields(); i++ {
+			if typeHasFunc(u.Field(i).Type(), seen) {
+				return true
+			}
+		}
+	case *types.Interface:
+		return true
+	}
+	return false
+}
+
+// globalScalarInitOnly: package-level state that is as good as a constant: only the package
+// initialiser writes the variable, and what it holds is never written, handed to code that
+// could write it, or allowed to escape (checked over every function of its package).
+func (e *Engine) globalScalarInitOnly(g *ssa.Global) bool {
+	e.mu.Lock()
+	if e.constGlobals == nil {
+		e.constGlobals = map[*ssa.Global]bool{}
+	}
+	v, ok := e.constGlobals[g]
+	e.mu.Unlock()
+	if ok {
+		return v
+	}
+	v = e.globalEffectivelyConst(g)
+	e.mu.Lock()
+	e.constGlobals[g] = v
+	e.mu.Unlock()
+	return v
+}
+
+func (e *Engine) globalEffectivelyConst(g *ssa.Global) bool {
+	var fns []*ssa.Function
+	var addAnon func(f *ssa.Function)
+	addAnon = func(f *ssa.Function) {
+		fns = append(fns, f)
+		for _, a := range f.AnonFuncs {
+			addAnon(a)
+		}
+	}
+	for _, m := range g.Pkg.Members {
+		switch x := m.(type) {
+		case *ssa.Function:
+			addAnon(x)
+		case *ssa.Type:
+			for _, t := range []types.Type{x.Type(), types.NewPointer(x.Type())} {
+				ms := e.prog.MethodSets.MethodSet(t)
+				for i := 0; i < ms.Len(); i++ {
+					if f := e.prog.MethodValue(ms.At(i)); f != nil && f.Pkg == g.Pkg {
+						addAnon(f)
+					}
+				}
+			}
+		}
+	}
+	_, scalar := scalarSort(deref(g.Type()))
+	immutablePointee := func(t types.Type) bool {
+		// values documented as immutable after construction
+		s := t.String()
+		return s == "*regexp.Regexp" || s == "error" || s == "*errors.errorString"
+	}
+	for _, f := range fns {
+		inInit := f.Name() == "init" && f.Parent() == nil
+		for _, b := range f.Blocks {
+			for _, ins := range b.Instrs {
+				if st, ok := ins.(*ssa.Store); ok && st.Addr == g && !inInit {
+					return false
+				}
+			}
+		}
+		if inInit || scalar {
+			continue
+		}
+		// follow what is read out of g
+		derived := map[ssa.Value]bool{}
+		var work []ssa.Value
+		add := func(v ssa.Value) {
+			if !derived[v] {
+				derived[v] = true
+				work = append(work, v)
+			}
+		}
+		for _, b := range f.Blocks {
+			for _, ins := range b.Instrs {
+				for _, op := range ins.Operands(nil) {
+					if *op == ssa.Value(g) {
+						if v, ok := ins.(ssa.Value); ok {
+							add(v)
+						} else {
+							return false
+						}
+					}
+				}
+			}
+		}
+		for len(work) > 0 {
+			v := work[len(work)-1]
+			work = work[:len(work)-1]
+			if _, sc := scalarSort(v.Type()); sc {
+				continue // a scalar read out of it carries no reference
+			}
+			if immutablePointee(v.Type()) {
+				continue
+			}
+			refs := v.Referrers()
+			if refs == nil {
+				continue
+			}
+			for _, r := range *refs {
+				switch x := r.(type) {
+				case *ssa.UnOp, *ssa.Index, *ssa.Field, *ssa.Lookup, *ssa.Extract, *ssa.Next, *ssa.Phi, *ssa.Slice, *ssa.TypeAssert, *ssa.ChangeType:
+					add(x.(ssa.Value))
+				case *ssa.IndexAddr:
+					add(x)
+				case *ssa.FieldAddr:
+					add(x)
+				case *ssa.Range:
+					add(x)
+				case *ssa.BinOp, *ssa.If, *ssa.DebugRef:
+				case *ssa.Convert:
+					if _, sc := scalarSort(x.Type()); !sc {
+						return false
+					}
+				case *ssa.MakeInterface:
+					if !immutablePointee(x.X.Type()) {
+						return false
+					}
+				case *ssa.Store:
+					return false // written through, or escapes into other storage
+				case *ssa.MapUpdate:
+					return false
+				case ssa.CallInstruction:
+					c := x.Common()
+					if bi, ok := c.Value.(*ssa.Builtin); ok && (bi.Name() == "len" || bi.Name() == "cap") {
+						continue
+					}
+					callee := c.StaticCallee()
+					if callee != nil && callee.Pkg != nil && deterministicPkgs[callee.Pkg.Pkg.Path()] && callee.Pkg.Pkg.Path() != "sort" && callee.Pkg.Pkg.Path() != "bytes" {
+						continue
+					}
+					if callee != nil && callee.Signature.Recv() != nil && immutablePointee(callee.Signature.Recv().Type()) {
+						continue
+					}
+					return false
+				default:
+					return false
+				}
+			}
+		}
+	}
+	return true
+}
+
+func typeHasRef(t types.Type, seen map[types.Type]bool) bool {
+	if seen[t] {
+		return false
+	}
+	seen[t] = true
+	switch u := t.Underlying().(type) {
+	case *types.Basic:
+		return false
+	case *types.Array:
+		return typeHasRef(u.Elem(), seen)
+	case *types.Struct:
+		for i := 0; i < u.NumFields(); i++ {
+			if typeHasRef(u.Field(i).Type(), seen) {
+				return true
+			}
+		}
+		return false
+	}
+	return true
 }
